@@ -4,6 +4,7 @@ from harness import Program, Inconclusive, RC, WEAK
 from rules_ts import Teardown, Borrows, handle_boxes
 from rules_gate import Gate, Counters, Kill, short
 from rules_trace import Verdict, Trace, ClosureCache, Adaptors
+from rules_api import TableOps, AdoptSchema, Purge, Getters, ApiSpec, Forward, FWD_TRAITS, REF_TRAITS
 
 
 def analyse(program):
@@ -25,6 +26,23 @@ def analyse(program):
         self_box = hb[1][1] if 1 in hb else None
         rules = [Teardown(kind, self_box), Borrows(), Gate(kind, self_box), Counters(kind, self_box, fn),
                  Kill(kind, self_box, fn.path), Verdict(closures, fn), Trace(closures, P), Adaptors(closures)]
+        name = short(fn.path)
+        boxes = hb
+        rules.append(TableOps())
+        if fn is P.adopt():
+            rules.append(AdoptSchema("adopt", boxes))
+        elif fn is P.unadopt():
+            rules.append(AdoptSchema("unadopt", boxes))
+        if kind == "rc_drop":
+            rules.append(Purge(self_box))
+        if name in ("Weak::strong_count", "Weak::weak_count", "Rc::strong_count", "Rc::weak_count"):
+            rules.append(Getters(name, self_box))
+        if not fn.f.get("impl_trait") and (name.startswith("Rc::") or name.startswith("Weak::")):
+            rules.append(ApiSpec(name, boxes, fn))
+        isf = fn.f.get("impl_self") or {}
+        if fn.f.get("impl_trait") in FWD_TRAITS or fn.f.get("impl_trait") in REF_TRAITS:
+            if isf.get("adt") == RC:
+                rules.append(Forward(fn, boxes))
         eng = P.run(fn, rules)
         results.append((fn, kind, eng, rules))
     return results
